@@ -271,6 +271,12 @@ def _gro():
             "   1.82060   2.82060   3.82060   0.00000   0.00000   0.51234   0.00000   0.61234   0.71234\n")
 
 
+def _gro_novel():
+    """the same frame with positions only (velocity columns are optional in the format)"""
+    lines = _gro().split("\n")
+    return "\n".join([l[:44] if 2 <= i <= 4 else l for i, l in enumerate(lines)])
+
+
 def _poscar():
     return ("probe\n   1.0\n 5.5 0.25 0.125\n 0.5 6.5 0.75\n 0.375 0.625 7.5\n   O H\n   1 2\nCartesian\n"
             " 0.125 0.250 0.375\n 0.8125 0.250 0.375\n 0.125 0.9375 0.375\n")
@@ -429,6 +435,7 @@ def load_probes():
     add("locpot", "cellvecs", "locpot", g_cell, file="LOCPOT.oxygen", name="LOCPOT.p", span=(2, 5))
     add("locpot", "cube.data", "locpot", lambda d: d.cube.data, file="LOCPOT.oxygen", name="LOCPOT.p", span=(10, 14))
     add("gromacs", "atcoords", "gromacs", g_coords, text=_gro, name="p.gro", span=(2, 5))
+    add("gromacs-novel", "atcoords", "gromacs", g_coords, text=_gro_novel, name="p.gro", span=(2, 5))
     add("gromacs", "velocities", "gromacs", lambda d: d.extra["velocities"], text=_gro, name="p.gro", span=(2, 5))
     add("gromacs", "cellvecs", "gromacs", g_cell, text=_gro, name="p.gro", span=(5, 6), nrows=9)
     add("gromacs", "time", "gromacs", lambda d: [d.extra["time"]], text=_gro, name="p.gro", span=(0, 1))
